@@ -9,11 +9,13 @@ pinned by /repo/Cargo.lock every time this module is loaded and travel in every 
 script := B_local B_rt C R G  nT task*  lp(start act*)  event*
 task   := kind len op*      kind odd = spawn_local, even = tokio::spawn
 op     := 0 Log | 1 Recv (own inbox) | 2 t Send | 3 t Join | 4 Yield | 5 End
-event  := delta kind lp(pre act*) lp(act*)    act := 0 t Spawn | 1 t Send
+event  := delta kind lp(pre act*) lp(act*)
+act    := 0 t Spawn | 1 t Send | 2 _ current().shutdown() | 3 d current().shutdow_and_restart_in(max(d,1))
+          (shutdown requests count in handle_message and in the first at_sim_start only)
           pre = what the module's processing element does in its incoming hook (outside the runtime; only Send has
           an effect); kind odd = the element consumes the message (handle_message not called, act ignored)
 start  = what at_sim_start does (time 0)
-output := records  6 0 now | 3 e now | 2 task woken now | 1 task now | 4 pl pr left | 5 pl pr left
+output := records  6 0 now | 3 e now | 2 task woken now | 1 task now | 4 pl pr left | 7 0 now (Module::reset) | 5 pl pr left
 """
 import glob, os, re
 
@@ -22,7 +24,8 @@ COQ_PROP = "Properties/C06.v"; COQ_DIRS = ["Common", "Exec"]
 COQ_MODULE = "Exec.Model"; RUN_FN = "run"
 THEOREMS = ["C06_ideal_executor_reaches_quiescence", "C06_quiescent_if_within_budget", "C06_known_class_is_over_budget",
             "C06_leftover_only_in_known_class", "C06_quiescent_iff_within_budget", "C06_budget_monotone", "C06_await_observes_enabling_instant",
-            "C06_ops_within_their_poll", "C06_exec_from_quiescence_is_timely", "C06_consumed_message_is_driven"]
+            "C06_ops_within_their_poll", "C06_exec_from_quiescence_is_timely", "C06_consumed_message_is_driven",
+            "C06_shutdown_request_keeps_exec"]
 QUICK_N = 1500; THOROUGH_N = 60000
 XCHECK_N = 40
 
@@ -70,7 +73,9 @@ RULE = ("scripts = (tokio constants read from the pinned source, task table, eve
         "A->B->C.. of length around B through per-task channels (tasks pre-spawned in batches, then one trigger), k receives in one poll "
         "with k around C, JoinHandle chains, yield_now, cross-executor wakes, messages CONSUMED or passed on by a processing element whose "
         "incoming hook wakes waiting tasks (tokio::spawn tasks through the inject queue; long event series rotate the scheduler tick through "
-        "global_queue_interval), tasks spawned by at_sim_start, random small mixes; later 'flush' events (delta 0 and > 0) "
+        "global_queue_interval), tasks spawned by at_sim_start, handlers that wake tasks and request shutdown() / shutdow_and_restart_in(d) in "
+        "the same invocation (~15 % of the stream; messages during the down time, restarts replaying at_sim_start), random small mixes; "
+        "later 'flush' events (delta 0 and > 0) "
         "show when left-over tasks run; non-trivial = distinct script in which tasks are polled and >= 2 targeted mechanisms occur")
 TRUSTED = ["tokio %s constants re-read on every run: MAX_TASKS_PER_TICK=%d, default event_interval=%d, Budget::initial=%d, "
            "DEFAULT_GLOBAL_QUEUE_INTERVAL=%d, REMOTE_FIRST_INTERVAL=%d (the last has no effect: all wakes happen on the simulation thread, "
@@ -78,7 +83,8 @@ TRUSTED = ["tokio %s constants re-read on every run: MAX_TASKS_PER_TICK=%d, defa
            "user code is a script language: tasks over Log/Recv/Send/Join/Yield/End with one unbounded channel per task; only the callback spawns; "
            "callbacks are at_sim_start (one stage), messages handled by handle_message, messages consumed / passed on by one processing "
            "element whose incoming hook sends on channels, and the tear-down; timer wake-ups (async_wakeup: wakes outside block_on, then "
-           "exec of an empty callback -- the shape of a consumed message) are C05's subject; shutdown/restart is C09's",
+           "exec of an empty callback -- the shape of a consumed message) are C05's subject; shutdown()/shutdow_and_restart_in(d) requested by "
+           "handle_message or the first at_sim_start are scripted (restart delays >= 1 ns; what an inert module does is C09's subject)",
            "the harness observes polls and wakes by wrapping each task future and the waker it is polled with"]
 ASSUMPTIONS = ["task ids, counts and times stay far below 2^62", "the module is driven by handle_message events only"]
 CLAIM = dict(
@@ -88,7 +94,8 @@ CLAIM = dict(
          "Machine-checked (Coq 8.16, axiom-free), for ALL values of the three budgets and all task systems of the model's language (Log/Recv/Send/"
          "Join/Yield/End tasks spawned with spawn_local or tokio::spawn, per-task unbounded channels, JoinHandles, yield_now; callbacks = "
          "at_sim_start, handle_message, messages consumed or passed on by a processing element whose hooks wake tasks outside the runtime "
-         "(inject queue, tick counter and global_queue_interval modelled), tear-down -- each drives the runtime with one exec): the executor "
+         "(inject queue, tick counter and global_queue_interval modelled), tear-down -- each drives the runtime with one exec; a callback may "
+         "request shutdown / restart, which does not change its exec: tasks it woke are polled before the runtime is dropped): the executor "
          "without budgets terminates with every queue empty; forall x, ~KnownClass x -> the bounded executor (tokio's phases, budgets, LIFO "
          "deferred wakes) returns with all queues empty and produces exactly the state, log and per-poll results of the executor without budgets, "
          "where KnownClass x = the event needs more polls than b_local / b_rt in the LocalSet tick / scheduler turn, or a poll attempts more than "
@@ -103,7 +110,7 @@ CLAIM = dict(
          "failures inside the class are reported as KNOWN-FINDING, anything else is a violation.",
     note="Trusted: Coq kernel; extraction cross-checked in-Coq on a sample each run; harness/generator quality bounds the tie to the code; tokio is "
          "modelled (FIFO local queue, core + inject queue with tick counter, budgets, LIFO deferred wakes), not verified; the LocalSet's remote queue "
-         "is unused on one thread and not modelled; timer wake-ups and shutdown/restart are not exercised; wakes performed by an element's "
+         "is unused on one thread and not modelled; timer wake-ups are not exercised; wakes performed by an element's "
          "event_end hook (after the exec) necessarily wait for the module's next callback and are outside the script language. No small complete "
          "patch exists in des (raising event_interval covers tokio::spawn but not spawn_local).",
     technique="Coq: termination measure for the budget-free executor, mode-irrelevance lemmas (budgets invisible to work that fits), wake-record "
@@ -117,6 +124,8 @@ def SEND(t): return [2, t]
 def JOIN(t): return [3, t]
 def SP(t): return [0, t]
 def SD(t): return [1, t]
+def SHUT(): return [2, 0]
+def RST(d): return [3, d]
 
 
 def flat(xs):
@@ -182,11 +191,44 @@ def mk(tasks, events, st=()):
 def dec_acts(blob):
     acts, j = [], 0
     while j + 1 < len(blob):
-        if blob[j] in (0, 1):
+        if blob[j] in (0, 1, 2):
             acts.append((blob[j], blob[j + 1])); j += 2
+        elif blob[j] == 3:
+            acts.append((3, max(blob[j + 1], 1))); j += 2
         else:
             break
     return acts
+
+
+def shutdown_req(now, acts):
+    q = None
+    for a, x in acts:
+        if a == 2: q = ("down", None)
+        elif a == 3: q = ("down", now + x)
+    return q
+
+
+def plan(script):
+    """The callbacks the module gets, from the script alone (which messages find the module up):
+    ('start', t, acts) | ('ev', e, t, consumed, pre, acts) | ('reset', t); and the instant of the tear-down."""
+    hdr, tasks, st, evs = parse(script)
+    out = [("start", 0, st)]
+    mode = shutdown_req(0, st)
+    if mode: out.append(("reset", 0))
+    st2 = [(a, x) for a, x in st if a in (0, 1)]
+    t = 0
+    for e, (d, k, pre, acts) in enumerate(evs):
+        t += d
+        if mode and mode[1] is not None and mode[1] < t:
+            out.append(("start", mode[1], st2)); mode = None
+        if mode is None:
+            eff = [] if k else acts
+            out.append(("ev", e, t, k, pre, eff))
+            mode = shutdown_req(t, eff)
+            if mode: out.append(("reset", t))
+    if mode and mode[1] is not None:
+        out.append(("start", mode[1], st2)); t = max(t, mode[1])
+    return out, t
 
 
 def parse(script):
@@ -231,7 +273,8 @@ def pretty(script):
 
     def sh(acts):
         sp = [a[1] for a in acts if a[0] == 0]; sd = [a[1] for a in acts if a[0] == 1]
-        return "spawn %s; send %s" % ((sp if len(sp) <= 6 else "%d tasks" % len(sp)), (sd if len(sd) <= 6 else "%d msgs" % len(sd)))
+        dn = "".join("; shutdown" if a[0] == 2 else "; shutdown+restart in %d" % a[1] for a in acts if a[0] in (2, 3))
+        return "spawn %s; send %s%s" % ((sp if len(sp) <= 6 else "%d tasks" % len(sp)), (sd if len(sd) <= 6 else "%d msgs" % len(sd)), dn)
     if st:
         parts.append("start{%s}" % sh(st))
     t = 0
@@ -340,6 +383,8 @@ def gen_mix(rng):
         for _ in range(rng.choice([0, 1, 2, 5, nt, 2 * nt])):
             acts.append(SP(rng.randrange(nt)) if rng.random() < 0.6 else SD(rng.randrange(nt)))
         pre = [SD(rng.randrange(nt)) for _ in range(rng.choice([0, 0, 1, 2]))]
+        if rng.random() < 0.1:
+            acts.insert(rng.randrange(len(acts) + 1), RST(rng.choice([1, 5, 11])) if rng.random() < 0.7 else SHUT())
         evs.append(event(rng.choice([0, 1, 5, 7]), acts, pre=pre, consume=1 if rng.random() < 0.2 else 0))
     st = [SP(rng.randrange(nt)) for _ in range(rng.choice([0, 0, 1, nt]))]
     return mk(tasks, evs, st=st)
@@ -413,8 +458,42 @@ def gen_tick_phase(rng):
     return mk(tasks, evs, st=[SP(i) for i in range(len(tasks))])
 
 
+def gen_shutdown(rng):
+    """tasks wait on their channels; a handler (or at_sim_start) wakes some of them AND requests shutdown() /
+    shutdow_and_restart_in(d) in the same invocation; messages during the down time; work after the restart"""
+    B = min(BL, BR)
+    n = rng.choice([1, 2, 3, 5, 8, B, B + 1])
+    ks = kinds_for(rng, n)
+    tasks = []
+    for i in range(n):
+        ops = []
+        for _ in range(rng.choice([1, 2, 3])):
+            ops += [RECV, LOG]
+            if rng.random() < 0.25 and n > 1:
+                ops.append(SEND(rng.randrange(n)))
+            if rng.random() < 0.05:
+                ops.append(YIELD)
+        tasks.append(task(ks[i], ops))
+    st = [SP(i) for i in range(n)]
+    if rng.random() < 0.1:
+        st.append(RST(rng.choice([1, 3])) if rng.random() < 0.7 else SHUT())
+    evs = []
+    for _ in range(rng.choice([1, 2, 3, 5, 8])):
+        acts = [SD(rng.randrange(n)) for _ in range(rng.choice([0, 1, 1, 2, n]))]
+        pre = [SD(rng.randrange(n))] if rng.random() < 0.2 else []
+        r = rng.random()
+        if r < 0.45:
+            acts.insert(rng.randrange(len(acts) + 1), RST(rng.choice([0, 1, 2, 5, 6, 12])))
+        elif r < 0.55:
+            acts.append(SHUT())
+        if rng.random() < 0.1:
+            acts.append(SP(rng.randrange(n)))
+        evs.append(event(rng.choice([0, 1, 1, 5, 7]), acts, pre=pre, consume=1 if rng.random() < 0.1 else 0))
+    return mk(tasks, evs + flush_events(rng), st=st)
+
+
 def gen(rng, n):
-    fams = [gen_fanout, gen_fanout, gen_chain, gen_chain, gen_coop, gen_join, gen_yield, gen_mix, gen_mix, gen_small_within,
+    fams = [gen_shutdown, gen_shutdown, gen_shutdown, gen_fanout, gen_fanout, gen_chain, gen_chain, gen_coop, gen_join, gen_yield, gen_mix, gen_mix, gen_small_within,
             gen_element, gen_element, gen_element, gen_tick_phase]
     for _ in range(n):
         yield rng.choice(fams)(rng)
@@ -442,7 +521,7 @@ def exhaustive():
 
 def around(rng, script, n):
     for _ in range(n):
-        yield rng.choice([gen_fanout, gen_chain, gen_coop, gen_join, gen_yield, gen_mix, gen_element, gen_tick_phase])(rng)
+        yield rng.choice([gen_fanout, gen_chain, gen_coop, gen_join, gen_yield, gen_mix, gen_element, gen_tick_phase, gen_shutdown])(rng)
 
 
 # ----------------------------------------------------------------------------- reading the output
@@ -456,7 +535,7 @@ def records(out):
         t = out[i]
         if t == 9 and i == len(out) - 1:
             raise Bad("the simulation returned an error")
-        ln = {1: 3, 2: 4, 3: 3, 4: 4, 5: 4, 6: 3}.get(t)
+        ln = {1: 3, 2: 4, 3: 3, 4: 4, 5: 4, 6: 3, 7: 3}.get(t)
         if ln is None or i + ln > len(out):
             raise Bad("malformed output at %d" % i)
         res.append(tuple(out[i:i + ln])); i += ln
@@ -482,13 +561,11 @@ def monitor(script, out):
         return str(e)
     hdr, tasks, st_acts, evs = parse(script)
     n = len(tasks)
-    times, t = [], 0
-    for d, _, _, _ in evs:
-        t += d; times.append(t)
+    todo, end = plan(script)
     pc = [0] * n; spawned = [False] * n; inbox = [0] * n; fin = [None] * n
     jh = ["N"] * n; runnable = [None] * n; why = [""] * n; blocked = [None] * n
     eff = [None] * n; ypend = [False] * n
-    cur = 0; next_ev = 0
+    cur = 0; step = 0
 
     def deliver(tgt, when, who):
         if tgt < n and fin[tgt] is None:
@@ -516,28 +593,55 @@ def monitor(script, out):
             if a == 0:
                 if tg < n and not spawned[tg]:
                     spawned[tg] = True; jh[tg] = "T"; runnable[tg] = now; why[tg] = "spawned"
-            else:
+            elif a == 1:
                 deliver(tg, now, "the callback")
+
+    def expect(kind, rec):
+        nonlocal step
+        if step >= len(todo) or todo[step][0] != kind:
+            return None, "unexpected record %s (expected %s)" % (list(rec), todo[step][:3] if step < len(todo) else "the tear-down")
+        it = todo[step]; step += 1
+        return it, None
 
     k = 0
     while k < len(recs):
         r = recs[k]; k += 1
         if r[0] == 3:
             _, e, now = r
-            if e != next_ev or e >= len(times):
-                return "event %d handled out of order" % e
-            if now != times[e]:
-                return "event %d scripted for %d was handled at %d" % (e, times[e], now)
-            next_ev += 1; cur = now
-            _, consumed, pre, acts = evs[e]
+            it, err = expect("ev", r)
+            if err:
+                return err
+            if e != it[1]:
+                return "event %d handled where event %d was due (a message for an active module was skipped or one for a shut-down module handled)" % (e, it[1])
+            if now != it[2]:
+                return "event %d scripted for %d was handled at %d" % (e, it[2], now)
+            cur = now
+            _, _, _, consumed, pre, acts = it
             for a, tg in pre:
                 if a == 1:
                     deliver(tg, now, "the processing element" + (" that consumed the message" if consumed else ""))
-            callback([] if consumed else acts, now)
+            callback(acts, now)
         elif r[0] == 6:
-            if k != 1 or r[2] != 0:
-                return "at_sim_start ran at %d (record %d)" % (r[2], k - 1)
-            callback(st_acts, 0)
+            it, err = expect("start", r)
+            if err:
+                return err
+            if r[2] != it[1]:
+                return "at_sim_start ran at %d, due at %d" % (r[2], it[1])
+            cur = r[2]
+            callback(it[2], cur)
+        elif r[0] == 7:
+            it, err = expect("reset", r)
+            if err:
+                return err
+            lost = [i for i in range(n) if runnable[i] is not None]
+            if lost:
+                i = lost[0]
+                return ("task %d became runnable at %d (%s) in the event that requested the shutdown and was cancelled without being polled"
+                        % (i, runnable[i], why[i]))
+            # the runtime is gone: every task is cancelled, the table starts afresh
+            for i in range(n):
+                pc[i] = 0; spawned[i] = False; inbox[i] = 0; fin[i] = None; jh[i] = "N"; runnable[i] = None
+                blocked[i] = None; eff[i] = None; ypend[i] = False
         elif r[0] in (4, 5):
             left = any(x is not None for x in runnable)
             if bool(r[3]) != left:
@@ -609,9 +713,8 @@ def monitor(script, out):
                     return "task %d stopped at %d before an operation that does not wait" % (i, now)
         elif r[0] == 1:
             return "operation of task %d outside a poll" % r[1]
-    if next_ev != len(times):
-        return "only %d of %d events were handled" % (next_ev, len(times))
-    end = times[-1] if times else 0
+    if step != len(todo):
+        return "the run stopped before %s" % (todo[step][:3],)
     for i in range(n):
         if runnable[i] is not None and runnable[i] < end:
             return "task %d became runnable at %d (%s) and was never polled although time advanced to %d" % (i, runnable[i], why[i], end)
@@ -680,6 +783,16 @@ def mechanisms(script, out):
         if r[0] == 5 and (r[1] or r[2]): m.add("polls_at_sim_end")
     for d, _, _, _ in evs[1:]:
         if d == 0: m.add("same_instant_callback")
+    todo, _ = plan(script)
+    if any(it[0] == "reset" for it in todo): m.add("shutdown")
+    if sum(1 for it in todo if it[0] == "start") > 1: m.add("restart")
+    if any(it[0] == "ev" for it in todo) and len([1 for it in todo if it[0] == "ev"]) < len(evs): m.add("message_for_inactive_module")
+    # a poll at its wake instant inside a callback whose record is followed by a reset
+    polled = False
+    for r in recs:
+        if r[0] in (3, 6): polled = False
+        elif r[0] == 2 and r[2] == r[3]: polled = True
+        elif r[0] == 7 and polled: m.add("wake_and_shutdown_in_one_event")
     return m
 
 
